@@ -105,6 +105,10 @@ template <class X> void run(Ctx& c, uint64_t idx) {
             if (rc == URI_SUCCESS) { d.live = true; c.count(kind == 3 ? "objects_resolved" : "objects_reference_created"); one<X>(c, d, (kind == 3 ? "resolved(" : "derived(") + esc(s) + " , " + esc(bs) + ")"); return; }
         }
     }
+    // a flag value the library itself never sets together with a host (Uri.h says so), but which a caller filling a structure by hand
+    // easily does: the text is not judged (no model says what it should be), only that the reported size, the written size and the
+    // capacity behaviour agree with each other
+    if (r.chance(1, 24) && b.u.hostText.first && b.u.pathHead) { b.u.absolutePath = URI_TRUE; b.srcText.clear(); origin += "+absolutePath-set-by-hand"; c.count("hand_set_absolute_path_with_host"); }
     c.count("objects_" + origin);
     one<X>(c, b, origin + "(" + esc(s) + ")");
     if (idx % 2000 == 1) c.sample("uri", esc(s));
